@@ -16,12 +16,18 @@ import numpy as np
 PRESSURE_UNITS = {'Pa': 1.0, 'bar': 1e5, 'kPa': 1000.0, 'mbar': 100.0}
 
 
+def distinct_ints(rs, lo, hi, n):
+    """n distinct integers in [lo, hi), sorted (cheap rejection sampling)."""
+    out = set()
+    while len(out) < n:
+        out.add(int(rs.randint(lo, hi)))
+    return np.array(sorted(out), dtype=float)
+
+
 def make_xsec_table(rs, nT, nP, nW, wn_lo=300.0, wn_hi=3000.0, logmag=(-40, 0)):
-    T = np.sort(rs.uniform(100, 3000, nT)).round(1)
-    while len(set(T)) < nT:
-        T = np.sort(rs.uniform(100, 3000, nT)).round(1)
-    P = np.sort(10 ** rs.uniform(-1, 7, nP))
-    wn = np.sort(rs.uniform(wn_lo, wn_hi, nW))
+    T = distinct_ints(rs, 1000, 30000, nT) / 10.0
+    P = 10 ** (distinct_ints(rs, -100, 700, nP) / 100.0)
+    wn = distinct_ints(rs, int(wn_lo * 100), int(wn_hi * 100), nW) / 100.0
     x = 10 ** rs.uniform(logmag[0], logmag[1], size=(nP, nT, nW))
     return {'T': T.tolist(), 'P': P.tolist(), 'wn': wn.tolist(),
             'x': x.tolist()}
